@@ -315,6 +315,43 @@ def m_windows(c):
     return IterObj([new_cell_ptr(SeqView(s, i, i + k)) for i in range(0, max(0, n - k + 1))], 0, 'windows')
 
 
+@model('core::slice::chunks', 'core::slice::chunks_exact')
+def m_chunks(c):
+    from .exec import SeqView
+    s = as_seq(c.st, c.args[0])
+    n = s.length(c.st)
+    kv = z3.simplify(c.args[1].v)
+    if not z3.is_bv_value(kv):
+        raise Unsupported('chunks with a symbolic size')
+    k = kv.as_long()
+    if k == 0:
+        from .exec import Panic
+        raise Panic('chunk size must be non-zero')
+    exact = c.canon.endswith('chunks_exact')
+    out = []
+    for i in range(0, n, k):
+        hi = min(n, i + k)
+        if exact and hi - i < k:
+            break
+        out.append(new_cell_ptr(SeqView(s, i, hi)))
+    return IterObj(out, 0, 'windows')
+
+
+@pattern(r'^<\[\w+; \d+\] as TryFrom<&(mut )?\[\w+\]>>::try_from$|^<&\[\w+; \d+\] as TryFrom<&\[\w+\]>>::try_from$')
+def m_array_try_from(c):
+    """&[T] -> [T; N] / &[T; N]: Ok exactly when the slice has N elements"""
+    m = re.search(r'; (\d+)\]', c.canon)
+    n = int(m.group(1))
+    s = as_seq(c.st, c.args[0])
+    if s.length(c.st) != n:
+        return err(Opaque('TryFromSliceError'))
+    items = list(s.items(c.st))
+    arr = Seq(s.elem_ty, items)
+    if c.canon.startswith('<&'):
+        return ok(new_cell_ptr(arr))
+    return ok(arr)
+
+
 # ------------------------------------------------------------------ integers
 
 def _int_method(name):
@@ -515,6 +552,29 @@ def m_is_variant(c):
     if isinstance(e.disc, int):
         return z3.BoolVal(e.disc == idx)
     return z3.simplify(e.disc == z3.BitVecVal(idx, 64))
+
+
+@pattern(r'^<Option as Ord>::(max|min)$')
+def m_opt_minmax(c):
+    """Option<int>: None < Some(_), Some compared by payload"""
+    a, b = c.args
+    def is_some(e):
+        if isinstance(e.disc, int):
+            return e.disc == 1
+        return c.st.branch(e.disc == z3.BitVecVal(1, 64), 'opt-ord')
+    sa, sb = is_some(a), is_some(b)
+    want_max = c.canon.endswith('max')
+    if not sa or not sb:
+        if not sa and not sb:
+            return a
+        somev, nonev = (a, b) if sa else (b, a)
+        return somev if want_max else nonev
+    x, y = a.fields[('Some', 0)], b.fields[('Some', 0)]
+    if not isinstance(x, Int):
+        raise Unsupported('Option::max on payload ' + type(x).__name__)
+    le = (x.v <= y.v) if x.signed else z3.ULE(x.v, y.v)
+    pick_b = le if want_max else z3.Not(le)      # Ord::max returns the second argument on ties, min the first
+    return some(Int(z3.simplify(z3.If(pick_b, y.v, x.v)), x.signed), a.ty)
 
 
 @model('Option::as_ref', 'Option::as_mut', 'Result::as_ref', 'Option::as_deref', 'Option::as_deref_mut')
